@@ -255,6 +255,17 @@ fn c16_shapes(ctx: &mut Ctx, rng: &Rng, fmt: Fmt, c: &Case, lean: bool) -> u64 {
     let want_path = sink::path();
     ctx.rep.evals += 1;
     ctx.rep.count(&format!("path.{}", want_path.tier()));
+    if !lean && rng.chance(1, 8) {
+        // the same call on a brand-new thread (fresh thread-locals, fresh stack)
+        let (i2, f2, e2) = (c.int.clone(), c.frac.clone(), c.exp);
+        let fresh = std::thread::spawn(move || util::catch(|| parse_iters(fmt, i2.iter(), f2.iter(), e2))).join();
+        ctx.rep.count("variant.fresh_thread");
+        match fresh {
+            Ok(Ok(b)) if b == want => {}
+            Ok(Ok(b)) => ctx.violation(fmt, c, "result-differs on a fresh thread", &bits_hex(fmt, b), &bits_hex(fmt, want)),
+            _ => ctx.violation(fmt, c, "panic on a fresh thread", "panic", &bits_hex(fmt, want)),
+        }
+    }
     let mut check = |ctx: &mut Ctx, name: &str, got: Result<u64, String>, path: Option<sink::Path>| {
         ctx.rep.evals += 1;
         ctx.rep.count(&format!("variant.{}", name));
@@ -262,7 +273,8 @@ fn c16_shapes(ctx: &mut Ctx, rng: &Rng, fmt: Fmt, c: &Case, lean: bool) -> u64 {
             Ok(b) if b == want => {
                 if let Some(p) = path {
                     if p != want_path {
-                        ctx.violation(fmt, c, &format!("hook-trace-differs via {}", name), &format!("{:?}", p), &format!("{:?}", want_path));
+                        // a diagnostic, not a verdict: internal routes may legitimately differ (e.g. a correct cache)
+                        ctx.rep.count("diag.hook_trace_differs");
                     }
                 }
             }
@@ -386,6 +398,22 @@ fn c16_shapes(ctx: &mut Ctx, rng: &Rng, fmt: Fmt, c: &Case, lean: bool) -> u64 {
                 sink::reset();
                 let r = util::catch(|| parse_iters(fmt, int.iter(), frac.iter(), e));
                 check(ctx, &format!("after_stack_poison_{}", pat), r, Some(sink::path()));
+                // a sibling: same digit count, same exponent, one early digit changed (same binade and big-integer
+                // sizes, different float) - what a too-coarsely keyed cache or stale scratch data would confuse
+                if int.len() + frac.len() >= 2 {
+                    let mut si = int.to_vec();
+                    let mut sf = frac.to_vec();
+                    let n = si.len() + sf.len();
+                    let pos = 1 + rng.below((n.min(17) - 1).max(1) as u64) as usize;
+                    let sfl = sf.len();
+                    let sil = si.len();
+                    let d = if pos < sil { &mut si[pos] } else { &mut sf[(pos - sil).min(sfl.saturating_sub(1))] };
+                    *d = b'0' + ((*d - b'0' + 1 + rng.below(8) as u8) % 10);
+                    let _ = util::catch(|| parse_iters(fmt, si.iter(), sf.iter(), e));
+                    sink::reset();
+                    let r = util::catch(|| parse_iters(fmt, int.iter(), frac.iter(), e));
+                    check(ctx, "after_sibling_parse", r, Some(sink::path()));
+                }
                 let prev = next_case(rng, if rng.chance(1, 2) { F64 } else { F32 }, lean);
                 let _ = util::catch(|| parse_iters(if rng.chance(1, 2) { F64 } else { F32 }, prev.int.iter(), prev.frac.iter(), prev.exp));
                 sink::reset();
@@ -488,7 +516,7 @@ fn mode_c16(ctx: &mut Ctx, rng: &Rng, args: &Args) {
     if lean {
         ctx.rep.extra.insert("lean".into(), "true".into());
     } else {
-        for k in ["variant.chain", "variant.filter", "variant.vecdeque", "variant.rev", "variant.skip_take_step_by", "variant.custom_noncontiguous_pessimistic_size_hint", "variant.heap_offset", "variant.stack_buffer", "variant.after_other_parse", "variant.after_stack_poison_0", "variant.after_stack_poison_3", "concurrent.calls", "path.slow_neg", "path.slow_pos", "path.fast", "path.moderate"] {
+        for k in ["variant.chain", "variant.filter", "variant.vecdeque", "variant.rev", "variant.skip_take_step_by", "variant.custom_noncontiguous_pessimistic_size_hint", "variant.heap_offset", "variant.stack_buffer", "variant.after_other_parse", "variant.after_sibling_parse", "variant.fresh_thread", "variant.after_stack_poison_0", "variant.after_stack_poison_3", "concurrent.calls", "path.slow_neg", "path.slow_pos", "path.fast", "path.moderate"] {
             ctx.rep.require(k);
         }
     }
